@@ -16,23 +16,23 @@ abbrev padOf (v : UInt32) : Bool := !isNoPad v
 /-! ### character maps are exactly the RFC tables (256-case kernel evaluation) -/
 
 theorem hexPair_exact (x : UInt8) : hexPair x = [hexNibbleChar (x.toNat / 16), hexNibbleChar (x.toNat % 16)] := by
-  sorry
+  exact hexPair_tbl x
 
 theorem hexClassify_exact (c : UInt8) :
     hexClassify c = match hexCharVal c with
       | some n => (0xFF, UInt8.ofNat n)
       | none => (0, 0) := by
-  sorry
+  exact hexClassify_tbl c
 
 theorem encChar_exact (v : UInt32) (x : UInt32) (hx : x.toNat < 64) :
     encChar v x = sextetChar (isUrlsafe v) x.toNat := by
-  sorry
+  exact encChar_tbl v x hx
 
 theorem decChar_exact (v : UInt32) (c : UInt8) :
     decChar v c = match charSextet (isUrlsafe v) c with
       | some n => UInt32.ofNat n
       | none => 0xFF := by
-  sorry
+  exact decChar_tbl v c
 
 /-! ### hex -/
 
@@ -40,13 +40,13 @@ theorem decChar_exact (v : UInt32) (c : UInt8) :
 theorem bin2hex_eq_spec (hexMaxlen : UInt64) (bin : Bytes) (hlen : bin.length < 2 ^ 63 - 1) :
     sodium_bin2hex hexMaxlen bin =
       if hexMaxlen.toNat ≤ 2 * bin.length then .misuse else .ok (hexEncode bin ++ [0]) := by
-  sorry
+  exact bin2hex_spec hexMaxlen bin hlen
 
 /-- decoding the encoding returns the original bytes, full length consumed, for any ignore set
     and with or without an end pointer -/
 theorem hex_roundtrip (bin : Bytes) (cap : Nat) (h : bin.length ≤ cap) (ign : Option Bytes) (wantEnd : Bool) :
     sodium_hex2bin cap (hexEncode bin) ign wantEnd = ⟨0, bin.length, 2 * bin.length, bin⟩ := by
-  sorry
+  exact hex2bin_roundtrip bin cap h ign wantEnd
 
 /-- reference grammar for hex text: ignorable characters only between complete digit pairs -/
 inductive HexWF (ign : Option Bytes) : Bytes → Bytes → Prop where
@@ -56,32 +56,46 @@ inductive HexWF (ign : Option Bytes) : Bytes → Bytes → Prop where
   | pair (hi lo : UInt8) (a b : Nat) (rest out : Bytes) : hexCharVal hi = some a → hexCharVal lo = some b →
       HexWF ign rest out → HexWF ign (hi :: lo :: rest) (UInt8.ofNat (16 * a + b) :: out)
 
+theorem hexWF_iff_gram (ign : Option Bytes) (hex out : Bytes) : HexWF ign hex out ↔ HexGram ign hex out := by
+  constructor
+  · intro h
+    induction h with
+    | nil => exact .nil
+    | skip c rest out h1 h2 _ ih => exact .skip c rest out h1 h2 ih
+    | pair hi lo a b rest out h1 h2 _ ih => exact .pair hi lo a b rest out h1 h2 ih
+  · intro h
+    induction h with
+    | nil => exact .nil
+    | skip c rest out h1 h2 _ ih => exact .skip c rest out h1 h2 ih
+    | pair hi lo a b rest out h1 h2 _ ih => exact .pair hi lo a b rest out h1 h2 ih
+
 /-- hex2bin (no end pointer) succeeds exactly on well-formed text that fits the capacity, and then
     returns the digit pairs; it fails rather than truncating -/
 theorem hex_decode_spec (cap : Nat) (hex : Bytes) (ign : Option Bytes) (out : Bytes) :
     ((sodium_hex2bin cap hex ign false).rc = 0 ∧ (sodium_hex2bin cap hex ign false).written = out
         ∧ (sodium_hex2bin cap hex ign false).binLen = out.length)
       ↔ (HexWF ign hex out ∧ out.length ≤ cap) := by
-  sorry
+  rw [hexWF_iff_gram]
+  exact hex2bin_spec cap hex ign out
 
 /-- never more than `bin_maxlen` bytes are written, whatever the input -/
 theorem hex_capacity (cap : Nat) (hex : Bytes) (ign : Option Bytes) (wantEnd : Bool) :
     (sodium_hex2bin cap hex ign wantEnd).written.length ≤ cap := by
-  sorry
+  exact hex2bin_cap cap hex ign wantEnd
 
 /-- on failure the reported length is 0 unless the only defect is unconsumed trailing input
     without an end pointer (DESIGN §4-O6) -/
 theorem hex_fail_len (cap : Nat) (hex : Bytes) (ign : Option Bytes) :
     (sodium_hex2bin cap hex ign true).rc ≠ 0 → (sodium_hex2bin cap hex ign true).binLen = 0 := by
-  sorry
+  exact hex2bin_fail_len cap hex ign
 
 /-! ### Base64 encoding -/
 
 theorem b64Len_eq (v : UInt32) (n : Nat) : b64Len v n = encodedLen (padOf v) n := by
-  sorry
+  exact b64Len_spec v n
 
 theorem encode_length (us pad : Bool) (b : Bytes) : (encode us pad b).length = encodedLen pad b.length := by
-  sorry
+  exact encode_len us pad b
 
 /-- bin2base64 writes exactly the RFC 4648 text of the chosen variant followed by zero fill up
     to `b64_maxlen`; misuse for an invalid variant or a too-small buffer -/
@@ -90,22 +104,25 @@ theorem b64_encode_eq_rfc (maxlen : Nat) (bin : Bytes) (v : UInt32) :
       if !variantOk v then .misuse
       else if maxlen ≤ encodedLen (padOf v) bin.length then .misuse
       else .ok (encode (urlsafeOf v) (padOf v) bin ++ zeros (maxlen - encodedLen (padOf v) bin.length)) := by
-  sorry
+  exact bin2base64_spec maxlen bin v
 
 /-! ### Base64 decoding -/
 
 /-- decoding the encoding returns the original bytes and consumes the whole text, for every
-    variant, ignore set, capacity ≥ length, with or without an end pointer -/
+    variant, capacity ≥ length, with or without an end pointer, and every ignore set that does not
+    contain '='. (If '=' is ignorable the main loop skips the padding as ignorable characters and the
+    padding check then finds none: "AA==" with ignore "=" fails with -1 in the padded variants, so the
+    hypothesis `hne` is necessary; alphabet characters in the ignore set are harmless.) -/
 theorem b64_roundtrip (bin : Bytes) (cap : Nat) (h : bin.length ≤ cap) (ign : Option Bytes) (wantEnd : Bool)
-    (v : UInt32) (hv : variantOk v = true) :
+    (v : UInt32) (hv : variantOk v = true) (hne : inIgnore ign padChar = false) :
     sodium_base642bin cap (encode (urlsafeOf v) (padOf v) bin) ign wantEnd v =
       .res ⟨0, bin.length, encodedLen (padOf v) bin.length, bin⟩ := by
-  sorry
+  exact base642bin_roundtrip bin cap h ign wantEnd v hv hne
 
 /-- never more than `bin_maxlen` bytes are written -/
 theorem b64_capacity (cap : Nat) (b64 : Bytes) (ign : Option Bytes) (wantEnd : Bool) (v : UInt32) (r : DecResult) :
     sodium_base642bin cap b64 ign wantEnd v = .res r → r.written.length ≤ cap := by
-  sorry
+  exact base642bin_cap cap b64 ign wantEnd v r
 
 /-- the text with its ignorable (non-alphabet, in-ignore-set) characters removed -/
 def strip (us : Bool) (ign : Option Bytes) (t : Bytes) : Bytes :=
@@ -119,7 +136,7 @@ theorem b64_decode_iff (cap : Nat) (b64 : Bytes) (ign : Option Bytes) (v : UInt3
     (hdisj : ∀ c, inIgnore ign c = true → charSextet (urlsafeOf v) c = none ∧ c ≠ padChar) (out : Bytes) :
     sodium_base642bin cap b64 ign false v = .res ⟨0, out.length, b64.length, out⟩
       ↔ (strip (urlsafeOf v) ign b64 = encode (urlsafeOf v) (padOf v) out ∧ out.length ≤ cap) := by
-  sorry
+  exact base642bin_strict cap b64 ign v hv hdisj out
 
 /-! concrete behaviour (tests, labelled as such) -/
 example : sodium_bin2base64 9 [0x01, 0xab, 0xcd, 0xef] 1 = .ok [65, 97, 118, 78, 55, 119, 61, 61, 0] := by decide
